@@ -373,6 +373,10 @@ class Monitor:
             while j > 0 and not isinstance(hist[j], PartHandler):
                 j -= 1
             giver = hist[j]
+            gref = self.refs.get(getattr(giver, 'name', None))
+            if gref is not None and 'acct' in self.on and not gref.up and isinstance(giver, PartProcessor):
+                self.bad('C13.release-while-down', f'{giver.name} handed {part.name} to {name} at {now} while it is shut down / '
+                         f'failed (a finished part leaves after restoration)')
             if giver.name in self.bat:
                 rec = self.bat[giver.name]
                 ids = [lf.id for lf in leaves(part)]
@@ -1055,12 +1059,14 @@ class Monitor:
         cands = []
         for d in self.devs:
             p = ready_part(d, env, self.strict_ready)
-            if p is not None and leaves(p):      # the statement is about parts: an empty batch holds none
+            if p is not None and leaves(p) and d.downstream:
+                # the statement is about parts (an empty batch holds none) and about downstream neighbours (a device that
+                # has none yet offers its part to nobody)
                 cands.append((d, p))
         for d, p in cands:
             for lf in leaves(p):
                 self.blocked_seen.setdefault(lf.id, d.name)
-        if 'wake' not in on or not cands or self.c['probes'] > 4000:
+        if 'wake' not in on or not cands or self.c['probes'] > 600:
             return                               # probe budget per case: bounds the cost, never decides anything
         self.c['blocked_ready'] += len(cands)
         # keep the copy small: delivered parts and recorded data play no role in hand-over decisions
@@ -1242,6 +1248,15 @@ class Monitor:
                     f()
                 self.adopt_late_devices()
         self.quiescent()
+        if 'value' in self.on:
+            from simprocesd.model import System
+            before = self.sys.get_net_value_of_assets()
+            younger = System()          # another model is started in the same process
+            Maintainer('crew-of-the-next-model', value=-1234.5)
+            after = self.sys.get_net_value_of_assets()
+            if after != before:
+                self.bad('C16.net', f'get_net_value_of_assets() of this system changed from {before} to {after} when another '
+                         f'System (with an asset worth -1234.5) was created')
         if 'route' in self.on:
             self.route_check(True)
         if 'acct' in self.on:
